@@ -275,6 +275,7 @@ class NumericWaveform(ABC, Generic[_TRaw, _TScaled]):
 
         if timing is None:
             timing = Timing.empty
+        self._validate_timing(timing)
         self._timing = timing
 
         if scale_mode is None:
@@ -463,6 +464,10 @@ class NumericWaveform(ABC, Generic[_TRaw, _TScaled]):
         if self._start_index + value > self.capacity:
             raise create_start_index_or_sample_count_too_large_error(
                 self._start_index, value, "capacity", self.capacity
+            )
+        if self._timing._timestamps is not None and value != len(self._timing._timestamps):
+            raise create_irregular_timestamp_count_mismatch_error(
+                len(self._timing._timestamps), "number of samples in the waveform", value
             )
         self._sample_count = value
 
@@ -715,11 +720,6 @@ class NumericWaveform(ABC, Generic[_TRaw, _TScaled]):
             raise create_datatype_mismatch_error("input array", array.dtype, "waveform", self.dtype)
         if array.ndim != 1:
             raise invalid_array_ndim("input array", "one-dimensional array", array.ndim)
-        if self._timing._timestamps is not None and len(array) != len(self._timing._timestamps):
-            raise create_irregular_timestamp_count_mismatch_error(
-                len(self._timing._timestamps), "input array length", len(array), reversed=True
-            )
-
         start_index = arg_to_uint("start index", start_index, 0)
         if start_index > len(array):
             raise create_start_index_too_large_error(
@@ -729,6 +729,10 @@ class NumericWaveform(ABC, Generic[_TRaw, _TScaled]):
         if start_index + sample_count > len(array):
             raise create_start_index_or_sample_count_too_large_error(
                 start_index, sample_count, "input array length", len(array)
+            )
+        if self._timing._timestamps is not None and sample_count != len(self._timing._timestamps):
+            raise create_irregular_timestamp_count_mismatch_error(
+                len(self._timing._timestamps), "input array length", sample_count, reversed=True
             )
 
         if copy:
